@@ -199,7 +199,7 @@ func (q Query) EncodeAware(b *Buffer, version int) {
 		b.PutString(q.Secret)
 	}
 
-	StageComplete.Encode(b)
+	q.Stage.Encode(b)
 	q.Compression.Encode(b)
 
 	b.PutString(q.Body)
